@@ -34,6 +34,8 @@ type HookCase struct {
 	// Stale: a call with await != trigger whose result waits for its await point longer than the
 	// hook's own (short) timeout; PauseMs = lab sleep before the target transition, BodySleepMs =
 	// the target's task transition sleeps that long
+	// Eval: call hooks whose expression cannot be evaluated
+	Eval bool `json:"eval,omitempty"`
 	// TwoAttempt: a hook task times out in a first attempt, its exit-0 report arrives through
 	// NotifyEvent when no hook phase is running, then the hook task is triggered again (Second =
 	// what it does then)
